@@ -11,7 +11,12 @@
 (***************************************************************************)
 EXTENDS Semantics
 
-MapKids(F(_), t) == [t EXCEPT !.kids = [i \in 1..Len(t.kids) |-> F(t.kids[i])]]
+\* (strict: built with Append.  A lazily applied [i \in 1..n |-> F(t.kids[i])] is re-evaluated by TLC at every
+\*  application, which is exponential in the depth of the tree)
+MapKids(F(_), t) ==
+  LET RECURSIVE go(_, _)
+      go(i, acc) == IF i > Len(t.kids) THEN acc ELSE go(i + 1, Append(acc, F(t.kids[i])))
+  IN [t EXCEPT !.kids = go(1, <<>>)]
 
 DefaultCfg == [stateless |-> {"p"}, costs |-> <<>>]
 
@@ -27,7 +32,9 @@ StatelessOp(t, cfg) == IsOp(t) /\ (IsBuiltin(t.v) \/ t.v \in cfg.stateless)
 (***************************************************************************)
 RECURSIVE CFc(_, _)
 CFc(t0, cfg) ==
-  LET t == [t0 EXCEPT !.kids = [i \in 1..Len(t0.kids) |-> CFc(t0.kids[i], cfg)]]
+  LET RECURSIVE kidsCF(_, _)
+      kidsCF(i, acc) == IF i > Len(t0.kids) THEN acc ELSE kidsCF(i + 1, Append(acc, CFc(t0.kids[i], cfg)))
+      t == [t0 EXCEPT !.kids = kidsCF(1, <<>>)]
       n == Len(t.kids)
       RECURSIVE scan(_)
       scan(i) ==
@@ -130,7 +137,9 @@ ROc(t0, costs) ==
                 [] t0.k = "o" -> (n + 1) + 5 + CostOf(costs, "operator", t0.v, 10) + sum(1, 0)
                 [] t0.k = "if" -> 4 + ks[1][1] + mx(ks[2][1], ks[3][1])
       sorted == IF IsBoolOp(t0) THEN SortStable(ks) ELSE ks
-  IN <<cost, [t0 EXCEPT !.kids = [i \in 1..n |-> sorted[i][2]]]>>
+      RECURSIVE trees(_, _)
+      trees(i, acc) == IF i > n THEN acc ELSE trees(i + 1, Append(acc, sorted[i][2]))
+  IN <<cost, [t0 EXCEPT !.kids = trees(1, <<>>)]>>
 RO(t, costs) == ROc(t, costs)[2]
 Cost(t, costs) == ROc(t, costs)[1]
 
